@@ -74,12 +74,42 @@ contract(f"{SB}::BaseScheduler.end_session", params={}, props=["C11", "C09"], ab
 
 # BaseSampler.sample is proved in c12_dedup.py; here it may additionally raise (C11)
 # ---- Calibrator methods ------------------------------------------------------------------------------------
-contract(f"{C}::Calibrator.simulate_model", params={"params": "arr2[real]"}, returns="arr4[real]", trusted=True,
-         may_raise=["Exception"], props=["C02", "C11"],
+# simulate_model: row i, member e of the result is the user's model run on EXACTLY the vector params[i], with the
+# configured simulation length, and with the (i*E + e)-th seed drawn - in order, in the parent - from the calibrator's
+# generator.  The model is an uninterpreted pure function `mout` of (model object, parameter vector by value, N, seed).
+_SEED = "spec_draw_int(rng_iter(old(self.random_generator.state), {k}), 0, 2**32 - 1)"
+klass("Calibrator", fields={"model": "opaque:UserModel"})
+contract(f"{C}::Calibrator.simulate_model", params={"params": "arr2[real]"}, returns="arr4[real]",
+         # ValueError exactly when some run of the model does not return an (N, D) array (np.array / np.reshape refuse)
+         # (run q = i*E + e of the model is member e of row i: q // E == i)
+         defs={"admissible": ([], "forall(range(0, params.shape[0] * self.ensemble_size), lambda q: "
+                                  "mout_rows(self.model, params[ediv(q, self.ensemble_size)], self.N, " + _SEED.format(k="q") + ") == self.N and "
+                                  "mout_cols(self.model, params[ediv(q, self.ensemble_size)], self.N, " + _SEED.format(k="q") + ") == self.D)")},
+         raises=[{"exc": "ValueError", "when": "not admissible()"}],
+         may_raise=["Exception"], props=["C02", "C11", "C01"],
          ensures=["result.shape[0] == params.shape[0] and result.shape[1] == self.ensemble_size and "
-                  "result.shape[2] == self.N and result.shape[3] == self.D"],
+                  "result.shape[2] == self.N and result.shape[3] == self.D",
+                  "forall(range(0, params.shape[0]), lambda i: forall(range(0, self.ensemble_size), lambda e: "
+                  "forall(range(0, self.N), lambda t: forall(range(0, self.D), lambda c: "
+                  "result[i, e, t, c] == mout(self.model, params[i], self.N, "
+                  + _SEED.format(k="i * self.ensemble_size + e") + ", t, c)))))",
+                  "self.random_generator.state == rng_iter(old(self.random_generator.state), "
+                  "params.shape[0] * self.ensemble_size)"],
          modifies=["self.random_generator.state"],
-         notes="ASSUMED here (joblib generator pattern); row/ensemble pairing is decided separately (C02 analysis)")
+         notes="joblib.Parallel / delayed are assumed to return the results in order with the arguments evaluated in the "
+               "parent in order; the user model is assumed to be a pure function of its three arguments; a model that "
+               "returns arrays of another shape than (N, D) makes np.array / np.reshape raise ValueError")
+loop_invariant(f"{C}::Calibrator.simulate_model", "comp1", over="enumerate(rep_params)", var="k",
+               locals={"_comp1": "arr2[real]"},
+               inv=["len(_comp1) == k",
+                    "self.random_generator.state == rng_iter(old(self.random_generator.state), k)",
+                    "forall(range(0, k), lambda q: forall(range(0, _comp1[q].shape[0]), lambda t: "
+                    "forall(range(0, _comp1[q].shape[1]), lambda c: _comp1[q][t, c] == "
+                    "mout(self.model, rep_params[q], self.N, " + _SEED.format(k="q") + ", t, c))))",
+                    "forall(range(0, k), lambda q: _comp1[q].shape[0] == mout_rows(self.model, rep_params[q], self.N, "
+                    + _SEED.format(k="q") + ") and _comp1[q].shape[1] == mout_cols(self.model, rep_params[q], self.N, "
+                    + _SEED.format(k="q") + "))"],
+               props=["C02"])
 
 contract(f"{C}::Calibrator._set_samplers_seeds", params={}, props=["C02", "C01"],
          # the scheduler is seeded with the calibrator's own seed; nothing else of the calibrator is touched
